@@ -48,7 +48,10 @@ func (f *MultipleValueList) Call(s *slip.Scope, args slip.List, depth int) (resu
 	}
 	v := s.Eval(form, d2)
 	if vs, ok := v.(slip.Values); ok {
-		result = slip.List(vs)
+		// The values can be the storage of a list (values-list), the result must not share it.
+		list := make(slip.List, len(vs))
+		copy(list, vs)
+		result = list
 	} else {
 		result = slip.List{v}
 	}
